@@ -80,6 +80,12 @@ CLAIMED = {
             "The forward+proofs, undo, light-client, partial-forest and proof-helper searches are re-run with every library call wrapped: each caller-owned slice is snapshotted before the call and compared "
             "after it, each previously returned result is kept with a private copy and compared at the end of every path, and the same block data object is reused across Verify, every instance's Modify, Undo "
             "and re-apply. Exhaustive within the hosts' bounds.", "6 C17"),
+    "C13": ("faults", "exhaustive enumeration of reader chunkings, truncation points and sink failure points per BFS state; restore as a BFS transition with a never-serialized twin",
+            "For every state of the forward search (N<=Ncat) on Pollard and MapPollard (full/partial, several TotalRows, both map iteration orders): restore through every reader of a closed family "
+            "(whole, 15 fixed chunk sizes, data-with-EOF, all 256 sequences of four first read sizes over {1,2,8,33}) must reproduce the reference observations and all byte counts / SerializeSize must equal "
+            "the stream length; every strict prefix under three reader kinds must give an error or an identical forest; every sink failure offset and failing call must give an error; nothing may panic. "
+            "A second search makes serialize/restore a transition followed by every later block and by Undo of pre-restore blocks, with the full observational oracle and a differential comparison against a "
+            "twin that was never serialized.", "6 C13"),
 }
 
 NOT_YET = {
@@ -116,7 +122,7 @@ def main():
             "add_only": True,
         },
         "engines": [
-            {"name": "hist", "path": "/verif/vmc/mc/hist.go", "serves_properties": ["C01", "C02", "C06", "C10", "C17"],
+            {"name": "hist", "path": "/verif/vmc/mc/hist.go", "serves_properties": ["C01", "C02", "C06", "C10", "C13", "C17"],
              "kind_free_text": "explicit-state breadth-first search over operation histories; every transition is executed on the real implementation and compared with a reference model"},
             {"name": "light", "path": "/verif/vmc/mc/light.go", "serves_properties": ["C07", "C08", "C11"],
              "kind_free_text": "explicit-state breadth-first search over light-client histories (Stump.Update, Proof.Update, Proof.Undo on the real code) against the reference model and a full prover"},
@@ -128,6 +134,8 @@ def main():
              "kind_free_text": "per-state exhaustive enumeration of accepted proof encodings applied to fresh replays of the state's history on every implementation"},
             {"name": "helper", "path": "/verif/vmc/mc/helpers.go", "serves_properties": ["C14", "C17"],
              "kind_free_text": "exhaustive enumeration of proof-helper inputs per accumulator state against the reference forest"},
+            {"name": "faults", "path": "/verif/vmc/mc/faults.go", "serves_properties": ["C13"],
+             "kind_free_text": "fault enumeration: every reader chunking of a closed family, every truncation point, every sink failure offset/call, on every state of the explicit-state search; map iteration order owned by the harness"},
             {"name": "geom", "path": "/verif/vmc/mc/geom.go", "serves_properties": ["C16"],
              "kind_free_text": "exhaustive enumeration of the argument space of the pure position functions (bounded heights exhaustive, boundary grid to 63 rows) against the reference geometry"},
         ],
